@@ -5,6 +5,7 @@
   of any proof.
 -/
 import PK.Model.Machine
+import PK.Model.Games
 open PK PK.State
 
 namespace Driver
@@ -312,6 +313,23 @@ partial def loop (T : Tables) (inp out : IO.FS.Stream) (ss : Sess) : IO Unit := 
       | .error .valueError => out.putStrLn "H !ValueError"
       | .error .keyError => out.putStrLn "H !KeyError")
       loop T inp out ss
+  | "variant" :: _ => loop T inp out ss          -- annotation for the C11 monitor; not part of the state
+  | ["variants", sb, bb] =>
+    -- dump of the model of games.py for the exhaustive comparison with the live classes
+    let sb := sb.toInt?.getD 1
+    let bb := bb.toInt?.getD 2
+    for v in Variant.all do
+      let bs := match v.mixin.structure with
+        | .fixedLimit => "FL" | .potLimit => "PL" | .noLimit => "NL"
+      out.putStrLn s!"V {v.className} code={v.code.getD "-"} bs={bs} single={pBool v.singleBet} bringin={pBool v.usesBringIn} deck={pCards v.deck} htypes={",".intercalate (v.handTypes.map HandType.name)}"
+      for st in v.streets sb (if v.singleBet then sb else bb) do
+        let hole := if st.hole.isEmpty then "-" else String.join (st.hole.map fun b => if b then "U" else "D")
+        let op := match st.opening with
+          | .position => "POSITION" | .lowCard => "LOW_CARD" | .highCard => "HIGH_CARD"
+          | .lowHand => "LOW_HAND" | .highHand => "HIGH_HAND"
+        out.putStrLn s!"S {v.className} {st.ident} burn={pBool st.burn} hole={hole} board={st.board} draw={pBool st.draw} opening={op} min={st.minBet} cap={pOpt pInt st.maxCount}"
+    out.putStrLn "."
+    loop T inp out ss
   | ["table", name] =>
     match LookupId.all.find? (·.name == name) with
     | none => out.putStrLn "X bad-table"; loop T inp out ss
